@@ -383,32 +383,4 @@ Proof.
   destruct (loc_size_ok (FFin y)) as [[]| |]; [reflexivity|discriminate|discriminate].
 Qed.
 
-(* altitude: whole centimetres; the text with two decimals is read back exactly.  Swept: 2000 values at the lower
-   end of the wire range, around zero and at the upper end (the rest of the range is left to the record-level
-   oracle, which draws altitudes from the whole range) *)
-Definition alt_rt (alt : Z) : bool :=
-  match num_reparse (the_dbl (dbl_of_Z alt)) with
-  | FFin a' => dbl_round a' =? alt
-  | FInf _ => false
-  end.
-
-Lemma alt_rt_low : forallb alt_rt (zrange 2000 (-10000000)) = true.
-Proof. vm_compute. reflexivity. Qed.
-Lemma alt_rt_mid : forallb alt_rt (zrange 2000 (-1000)) = true.
-Proof. vm_compute. reflexivity. Qed.
-Lemma alt_rt_high : forallb alt_rt (zrange 2000 4284965296) = true.
-Proof. vm_compute. reflexivity. Qed.
-
-Theorem altitude_roundtrip_swept alt :
-  (-10000000 <= alt < -9998000) \/ (-1000 <= alt < 1000) \/ (4284965296 <= alt < 4284967296) ->
-  exists a', num_reparse (the_dbl (dbl_of_Z alt)) = FFin a' /\ dbl_round a' = alt.
-Proof.
-  intros H. assert (E : Z.of_nat 2000 = 2000) by (vm_compute; reflexivity).
-  assert (G : alt_rt alt = true).
-  { destruct H as [H|[H|H]].
-    - pose proof alt_rt_low as L. rewrite forallb_forall in L. apply L. apply zrange_in. rewrite E. lia.
-    - pose proof alt_rt_mid as L. rewrite forallb_forall in L. apply L. apply zrange_in. rewrite E. lia.
-    - pose proof alt_rt_high as L. rewrite forallb_forall in L. apply L. apply zrange_in. rewrite E. lia. }
-  unfold alt_rt in G. destruct (num_reparse (the_dbl (dbl_of_Z alt))) as [a'|]; [|discriminate].
-  exists a'. split; [reflexivity|apply Z.eqb_eq, G].
-Qed.
+(* altitude: see Proofs/RdTextLocAlt.v (error bounds on the correctly rounded operations, whole wire range) *)
